@@ -476,6 +476,10 @@ func (c *EvalCtx) local(name string) (TVal, bool) {
 		base = name[:i]
 		want, _ = strconv.Atoi(name[i+1:])
 	}
+	if base == "rangeiter" {
+		// the hidden counter of a `for i := range n` loop (i itself only exists inside the body)
+		base = "rangeint.iter"
+	}
 	n := 0
 	fn := c.f.fn
 	for _, b := range fn.Blocks {
@@ -814,18 +818,20 @@ func (c *EvalCtx) evalCall(e *Expr) TVal {
 		default:
 			return c.mk(eq(h, "0"), sBool, tb)
 		}
-	case "calls":
+	case "calls", "started":
+		// calls(X): the number of calls of X; started(X): the number of goroutines started with X
 		name := e.Args[0].Name
 		if e.Args[0].Op == "sel" {
 			name = exprString(e.Args[0])
 		}
+		name = e.Name + ":" + name
 		if c.calleeCounts != nil {
-			if v, ok := c.calleeCounts["calls:"+name]; ok {
+			if v, ok := c.calleeCounts[name]; ok {
 				return c.mk(v, sInt, ti)
 			}
 			return c.mk("0", sInt, ti)
 		}
-		if v, ok := c.st.cells[cellKey{0, "calls:" + name}]; ok {
+		if v, ok := c.st.cells[cellKey{0, name}]; ok {
 			return c.mk(v.T, sInt, ti)
 		}
 		return c.mk("0", sInt, ti)
@@ -1042,6 +1048,14 @@ func (c *EvalCtx) evalCall(e *Expr) TVal {
 	case "closed":
 		v := c.eval(e.Args[0])
 		return c.mk(not(eq(sel(fr.heapCur(c.st, fr.chanHeap("ChanClosed")), v.T), "0")), sBool, tb)
+	case "published":
+		// published(m): the map m has been stored in a lock-guarded field (other goroutines can reach it)
+		v := c.eval(e.Args[0])
+		if !fr.eng.checkGuards {
+			// publication is only tracked in runs that check the lock discipline
+			return c.mk("false", sBool, tb)
+		}
+		return c.mk(not(eq(sel(fr.heapCur(c.st, fr.chanHeap("Published")), v.T), "0")), sBool, tb)
 	case "sent", "recvd", "chancap":
 		v := c.eval(e.Args[0])
 		h := map[string]string{"sent": "ChanSent", "recvd": "ChanRecvd", "chancap": "ChanCap"}[e.Name]
